@@ -272,6 +272,12 @@ def run_shard(shard, acc):
 def _run_version(shard, acc):
     Segment, Field, Component, Message, CNF, CNV = _imports()
     v, rnd = shard['v'], random.Random(shard['seed'])
+    if shard['k'] == 0:
+        # locally defined segments: every position is a child, spelled as a plain positive decimal
+        for z in ('ZXX', 'Z0A', 'ZZ0'):
+            for bad, why in (('%s_0' % z, 'index-zero'), ('%s_01' % z, 'index-with-leading-zero'), ('%s_+2' % z, 'index-with-sign'), ('%s_-1' % z, 'index-negative'),
+                             ('%s_x' % z, 'malformed'), ('ZYY_1', 'foreign-field')):
+                _emit(acc, {'kind': 'negative', 'on': 'segment', 'v': v, 's': z, 'fname': '%s_1' % z, 'fill': 'a', 'bad': bad, 'why': 'z-segment:' + why}, True)
     thorough = shard['thorough']
     segs = shard['names']
     allsegs = T.segments(v)
@@ -346,6 +352,17 @@ def _run_version(shard, acc):
                         'val': lit.valid(lit.first_leaf_dt(T, v, fref), 0)}, True)
         # negative space for this segment
         if T.seg_fields(v, s)[-1][2][2] == 'varies':
+            # open-ended: positions beyond the table are children, but only when spelled as plain positive decimals
+            first = rows[0]
+            fill = lit.valid(lit.first_leaf_dt(T, v, first[2]), 0)
+            beyond = rows[-1][1] + 1 + rnd.randrange(5)
+            for bad, why in (('%s_0' % s, 'index-zero'), ('%s_0%d' % (s, beyond), 'index-with-leading-zero'), ('%s_+%d' % (s, beyond), 'index-with-sign'),
+                             ('%s_-1' % s, 'index-negative'), ('%s_%d ' % (s, beyond), 'index-with-blank')):
+                _emit(acc, {'kind': 'negative', 'on': 'segment', 'v': v, 's': s, 'fname': first[0], 'fill': fill, 'bad': bad, 'why': why}, True)
+            vrow = rows[-1]
+            for bad, why in (('VARIES_0', 'varies-index-zero'), ('VARIES_02', 'varies-index-with-leading-zero'), ('%s_0' % vrow[0], 'component-index-zero'),
+                             ('VARIES_+1', 'varies-index-with-sign')):
+                _emit(acc, {'kind': 'negative', 'on': 'field', 'v': v, 's': s, 'fname': vrow[0], 'fill': 'a^b', 'bad': bad, 'why': why}, True)
             continue
         other = allsegs[(allsegs.index(s) + 1 + rnd.randrange(len(allsegs) - 1)) % len(allsegs)]
         last = rows[-1][1]
